@@ -184,6 +184,7 @@ func runC10(c *ev.Ctx) {
 	c10Faults(c)
 	c10Churn(c)
 	c10UnconfirmedFids(c)
+	c10RefusedUnbind(c)
 	c10LateReplies(c)
 }
 
@@ -860,6 +861,64 @@ func c10UnconfirmedFids(c *ev.Ctx) {
 				runtime.KeepAlive(held)
 			}
 		}
+	}
+}
+
+// (5b) an unbind the server answers with Rlerror is not a confirmation either:
+// the fid number is not handed out again.
+func c10RefusedUnbind(c *ev.Ctx) {
+	type removable interface{ Remove() error }
+	for i, how := range []string{"Close", "Remove"} {
+		if !c.Mine(i) {
+			continue
+		}
+		c.Begin("C10 refused unbind " + how)
+		cc := c10Setup(c, 3, nil)
+		if cc == nil {
+			continue
+		}
+		auto := fakesrv.Auto(0, 7)
+		cc.fs.Handler = func(s *fakesrv.Server, rq *fakesrv.Req) {
+			if rq.Err == nil && (rq.Msg.Type == wire.Tclunk || rq.Msg.Type == wire.Tremove) {
+				s.Reply(wire.Rlerror, rq.Msg.Tag, u(5))
+				return
+			}
+			auto(s, rq)
+		}
+		done := make(chan struct{})
+		var held []p9.File
+		walked := 0
+		go func() {
+			defer close(done)
+			for k := 0; k < 2; k++ {
+				if how == "Close" {
+					cc.files[k].Close()
+				} else {
+					cc.files[k].(removable).Remove()
+				}
+			}
+			for k := 0; k < 8; k++ {
+				_, f, err := cc.root.Walk([]string{fmt.Sprintf("n%d", k)})
+				if err != nil {
+					return
+				}
+				walked++
+				held = append(held, f)
+			}
+		}()
+		if o, d := quiesce.Await(done, wd); o != quiesce.CondMet {
+			hang(c, o, d, "C10:refused-unbind:call-hangs", how)
+			cc.fs.Shutdown()
+			continue
+		}
+		for _, m := range cc.fs.Monitor() {
+			if strings.HasPrefix(m, "fid:") {
+				c.Violation("C10:refused-unbind:"+firstWord(m)+":"+how, map[string]any{"monitor": m, "later_walks": walked})
+			}
+		}
+		c.Case("refused-unbind:"+how, walked > 0)
+		cc.fs.Shutdown()
+		runtime.KeepAlive(held)
 	}
 }
 
